@@ -203,6 +203,32 @@ def render(ty, sp=Spacer()) -> str:
     raise ValueError(ty)
 
 
+def render_paren(ty, sp, rng, p=0.5) -> str:
+    """a spelling of the type with item types written in parentheses (XPath 3.0 ParenthesizedItemType ::= '(' ItemType ')')
+    at random places: the outermost item type always, nested ones with probability p.  The occurrence indicator stays
+    outside the parentheses; `empty-sequence()` is not an item type and is never parenthesised."""
+    def par(text, o='1'):
+        return f'({sp()}{text}{sp()})' + occ_text(o, sp)
+
+    def go(t, force=False):
+        k = t[0]
+        wrap = force or rng.random() < p
+        if k == 'E':
+            return render(t, sp)
+        if k == 'L':
+            return par(render_leaf(t[1], sp), t[2]) if wrap else render(t, sp)
+        if k == 'F':
+            args = (sp() + ',' + sp()).join(go(a) for a in t[1])
+            body = f'function{sp()}({sp()}{args}{sp()}) as {sp()}{go(t[2])}'
+            return par(body) if wrap else body
+        if k == 'M':
+            body = f'map{sp()}({sp()}{live().atom_names[t[1]]}{sp()},{sp()}{go(t[2])}{sp()})'
+            return par(body, t[3]) if wrap else body + occ_text(t[3], sp)
+        body = f'array{sp()}({sp()}{go(t[1])}{sp()})'
+        return par(body, t[2]) if wrap else body + occ_text(t[2], sp)
+    return go(ty, True)
+
+
 def tok_leaf(leaf) -> str:
     k = leaf[0]
     if k in ('item', 'node', 'num', 'anyType', 'anySimple', 'fany', 'many', 'aany'):
@@ -262,6 +288,48 @@ def flat(ty) -> bool:
     if k == 'A':
         return flat(ty[1])
     return True
+
+
+def zero_arity(ty) -> bool:
+    """a typed function test without parameters somewhere in the type"""
+    k = ty[0]
+    if k == 'F':
+        return not ty[1] or any(zero_arity(a) for a in ty[1]) or zero_arity(ty[2])
+    if k == 'M':
+        return zero_arity(ty[2])
+    if k == 'A':
+        return zero_arity(ty[1])
+    return False
+
+
+def old_split_region(ty) -> bool:
+    """where `partition(') as ')` / `split(', ')` (the tree without fix-c18-6) cuts a typed function test at other
+    places than the grammar: a parameter that is not `simple` (Lean: `string_split_old_agrees_iff_simple`) or no
+    parameter at all — trigger of finding F18p on a tree without the fix"""
+    return not flat(ty) or zero_arity(ty)
+
+
+_PROBES = {}
+
+
+def tree_has(what: str) -> bool:
+    """behaviour probes of the tree under test for the three commits of branch fix-c18-6 ('split', 'parser', 'paren') (on a tree that has them the
+    F18p region is checked as strictly as everything else; on a tree without them it is the listed finding)"""
+    if what not in _PROBES:
+        if what == 'split':
+            from elementpath.helpers import split_function_test
+            _PROBES[what] = split_function_test('function(map(xs:string, xs:int)) as xs:int') == \
+                ['map(xs:string, xs:int)', 'xs:int']
+        else:
+            from elementpath.xpath31 import XPath31Parser
+            probe = {'parser': '. instance of function() as function(function(*), function(*)) as xs:int',
+                     'paren': '. instance of (xs:integer)'}[what]
+            try:
+                XPath31Parser().parse(probe)
+                _PROBES[what] = True
+            except Exception:
+                _PROBES[what] = False
+    return _PROBES[what]
 
 
 def has_typed_func(ty) -> bool:
@@ -794,7 +862,8 @@ def impl_as_argument(W: World, item, st_text, xsd11, c=0) -> str:
         return 'T' if r is True or r == [True] else f'?{r!r}'
     except Exception as e:
         t = err_text(e)
-        return 'F' if t == 'E:XPTY0004' else t
+        # FOTY0013 (a function item cannot be atomized) is the type error of this path too: the model has one code
+        return 'F' if t in ('E:XPTY0004', 'E:FOTY0013') else t
 
 
 def impl_restr(t1: str, t2: str) -> str:
@@ -830,6 +899,9 @@ def judge_cases(run: Run, W: World, cases, label='judgement'):
             case['parser'] = CFGS[c][0]
             st.count(f'namespaces:cfg{c}')
         spec = None if a['spec'] == '-' else a['spec']
+        if a['param'] == 'A':                  # accepted after the atomization of arrays: accepted
+            st.count('param:model-atomizes')
+            a['param'] = 'T'
         st.case({'t': canon, 'v': vt, 'x': x}, nontrivial=True)
         st.count('type:' + ty[0] + (':' + ty[1][0] if ty[0] == 'L' else ''))
         st.count('len:' + vt.split(' ')[0])
@@ -858,7 +930,14 @@ def judge_cases(run: Run, W: World, cases, label='judgement'):
         # function-typed-parameter matching is compared where get_argument is plain match_sequence_type: kind tests,
         # node(), map / array tests (atomic names go through cast_to_primitive_type, function tests through as_argument)
         param_op = (ty[0] == 'L' and ty[1][0] in ('K', 'KT', 'D', 'node', 'many', 'aany')) or ty[0] in ('M', 'A')
+        # ... and an atomic type against a value with arrays and no other function item: the arrays are atomized
+        # (convert_argument, model `convertArg`); there the specification of MATCHING is not the oracle
+        atomize_op = ty[0] == 'L' and ty[1][0] in ('a', 'num') and re.search(r'(?<![\w])r ', ' ' + vt) is not None \
+            and re.search(r'(?<![\w])[fm] ', ' ' + vt) is None
+        param_op = param_op or atomize_op
         ip = impl_param(W, pv, text, x, c) if param_op else None
+        if atomize_op:
+            st.count('param:array-to-atomic-type')
         if param_op:
             st.count('param:' + ip[:7])
         st.count('instance:' + ii[:7])
@@ -866,14 +945,15 @@ def judge_cases(run: Run, W: World, cases, label='judgement'):
         itags = list(tags)
         # a function-typed parameter applies the function conversion rules; they leave node / function / map / array
         # items alone, so for those types the specification's matching is the oracle; for atomic types tie only
-        pspec = spec
+        pspec = None if atomize_op else spec
         for op, got, mdl, what, site, sp_ in (
                 ('instance of', ii, a['inst'], 'instance-of', 'evaluate__instance_expression', spec),
                 ('treat as', it, a['treat'], 'treat-as', 'evaluate__treat_expression', spec),
                 ('function parameter', ip, a['param'], 'function-parameter', '_InlineFunction.__call__.get_argument', pspec)):
             if got is None:
                 continue
-            if op == 'function parameter' and got == 'E:XPST0003' and (a['fpp'] == '1' or ty[0] == 'F'):
+            if op == 'function parameter' and got == 'E:XPST0003' and (a['fpp'] == '1' or ty[0] == 'F') \
+                    and not tree_has('parser'):
                 # the declaration `function($g as T)` itself is rejected by the parser (F18p family): nothing is judged
                 st.count('param:declaration-rejected')
                 continue
@@ -882,7 +962,7 @@ def judge_cases(run: Run, W: World, cases, label='judgement'):
                 # (XPST0051 while the function test is read), whatever the value: not a judgement
                 st.count('static-XPST0051-in-function-test')
                 continue
-            if a['fp'] == '1':
+            if a['fp'] == '1' and not tree_has('parser'):
                 # the parser rejects / corrupts this legal type (finding F18p): the model of the evaluation
                 # is not claimed here; a wrong answer is the finding, a right one is fine
                 st.count('parser-gap-type')
@@ -893,6 +973,29 @@ def judge_cases(run: Run, W: World, cases, label='judgement'):
             if got != mdl or (sp_ is not None and got != sp_):
                 run.disagree(Disagreement(dict(case, op=op), got, mdl, sp_, what=what,
                                           site='_xpath2_operators.' + site, tags=itags))
+        # 4. the same judgements with the item types written in parentheses (XPath 3.0 ParenthesizedItemType): the
+        #    answer is the answer of the plain spelling (finding F18w on a tree that rejects the parentheses)
+        if ty[0] != 'E' and (len(vt) + x + c) % 4 == 0 and not (a['fp'] == '1' and not tree_has('parser')):
+            ptext = render_paren(ty, spacing, run.rng)
+            pcase = dict(case, text=ptext, spelling='parenthesised item types')
+            st.count('parenthesised-spelling')
+            for op, got, plain, mdl, what, site in (
+                    ('instance of', impl_instance(W, pv, ptext, x, c), ii, a['inst'], 'instance-of',
+                     'XPath1Parser.parse_sequence_type'),
+                    ('treat as', impl_treat(W, pv, ptext, x, c), it, a['treat'], 'treat-as',
+                     'XPath1Parser.parse_sequence_type'),
+                    ('function parameter', impl_param(W, pv, ptext, x, c) if param_op else None, ip, a['param'],
+                     'function-parameter', '_InlineFunction.nud')):
+                if got is None or got == plain:
+                    continue
+                if not tree_has('paren'):
+                    st.count('F18w-region:parenthesised')
+                    if spec is not None and got != spec:
+                        run.disagree(Disagreement(dict(pcase, op=op), got, None, spec, what=what, site=site,
+                                                  tags=['F18w']))
+                    continue
+                run.disagree(Disagreement(dict(pcase, op=op), got, mdl, spec, what=what + '-parenthesised', site=site,
+                                          tags=itags))
         if a['dom'] == '1':
             st.count('in-domain-of-match_eq_spec')
 
@@ -929,7 +1032,8 @@ def matrix_cases(run: Run, W: World):
 
 def text_cases(run: Run, types):
     """the Lean text of a type against the real normalised string, and the Lean model of the string-level
-    splitting (`pySplit`) against the real `st[9:].partition(') as ')` / `.split(', ')` and helpers.split_function_test"""
+    splitting (`pySplit`, depth-aware) against the real helpers.split_function_test and against the pieces the AST
+    gives (the harness's own rendering of the parameters and of the return type)"""
     from elementpath.sequence_types import normalize_sequence_type
     from elementpath.helpers import split_function_test
     st = run.stats
@@ -949,18 +1053,23 @@ def text_cases(run: Run, types):
                                       site='sequence_types.normalize_sequence_type'))
             continue
         if ty[0] == 'F':
-            parts = real[9:].partition(') as ')
-            impl = parts[0].split(', ') + ['=>', parts[2]]
-            model = split.split('\u241f')
+            spec = [render(a) for a in ty[1]] + [render(ty[2])]
+            pieces = split.split('\u241f')
+            model = [p for p in pieces[:pieces.index('=>')] if ty[1]] + pieces[pieces.index('=>') + 1:]
+            impl = split_function_test(real)
             st.count('text:split-compared')
-            if impl != model:
-                run.disagree(Disagreement({'type': real, 'op': "st[9:].partition(') as ') / split(', ')"}, impl, model, None,
-                                          what='string-split', site='sequence_types.is_sequence_type_restriction l.116-119'))
-            helper = split_function_test(real)
-            expect = (parts[0].split(', ') if parts[0] else []) + [parts[2]]
-            if helper != expect:
-                run.disagree(Disagreement({'type': real, 'op': 'helpers.split_function_test'}, helper, expect, None,
-                                          what='string-split', site='helpers.split_function_test'))
+            st.count(f'text:split-arity-{min(len(ty[1]), 3)}')
+            if model != spec:
+                run.disagree(Disagreement({'type': real, 'op': 'pySplit (Lean) against the AST pieces'}, model, spec, None,
+                                          what='string-split-model', site='EPV.SeqType.pySplit'))
+            if impl != spec:
+                if not tree_has('split') and not flat(ty):
+                    st.count('F18p-region:split')
+                    run.disagree(Disagreement({'type': real, 'op': 'helpers.split_function_test'}, impl, None, spec,
+                                              what='string-split', site='helpers.split_function_test', tags=['F18p']))
+                else:
+                    run.disagree(Disagreement({'type': real, 'op': 'helpers.split_function_test'}, impl, model, spec,
+                                              what='string-split', site='helpers.split_function_test'))
 
 
 def restr_cases(run: Run, pairs, what='restriction'):
@@ -977,13 +1086,21 @@ def restr_cases(run: Run, pairs, what='restriction'):
         im = impl_restr(s1, s2)
         st.case({'r1': render(t1), 'r2': render(t2)}, nontrivial=True)
         st.count('restriction:' + im)
-        if a['flat'] == '1':
-            st.count('restriction-flat')
-            if im != a['restr']:
+        region = a['osr'] == '1'        # the Lean predicate `¬ Ty.oldSplitOK` (trigger of F18p for the string splitting)
+        if region != (old_split_region(t1) or old_split_region(t2)):
+            run.disagree(Disagreement(line, 'harness region predicate differs from Ty.oldSplitOK', what='protocol'))
+        st.count('restriction-' + ('nested-or-no-parameters' if region else 'flat'))
+        if im != a['restr']:
+            if region and not tree_has('split'):
+                # tree without fix-c18-6: the parameter lists are cut at every ', ' (finding F18p); the relation on the
+                # AST (proved reflexive, transitive, sound for matching) is what the answer should have been
+                st.count('F18p-region:restriction')
+                run.disagree(Disagreement({'st1': s1, 'st2': s2, 'op': 'is_sequence_type_restriction'}, im, None, a['restr'],
+                                          what='restriction', site='sequence_types.is_sequence_type_restriction',
+                                          tags=['F18p']))
+            else:
                 run.disagree(Disagreement({'st1': s1, 'st2': s2, 'op': 'is_sequence_type_restriction'}, im, a['restr'],
                                           what='restriction', site='sequence_types.is_sequence_type_restriction'))
-        else:
-            st.count('restriction-nonflat(model not claimed)')
 
 
 def laws_of_real_relation(run: Run, W: World, types, values, tag_check=True):
@@ -1657,11 +1774,116 @@ def signatures(run: Run, W: World):
             status[key] = 'not called: ' + last_err
         if key not in status:
             status[key] = 'not called: ' + last_err
+        if status[key].endswith('E:XPST0017'):
+            # a registered signature (name, arity) that no call can use: XPST0017 'wrong number of arguments' whatever
+            # the arguments.  Trigger of finding F18v: the six names below, nothing else is excused.
+            st.count('signature:registered-but-uncallable')
+            run.disagree(Disagreement({'signature': key, 'declared': sig,
+                                       'named function reference': impl_eval(W, f'{qname.qname}#{arity} instance of {sig}')},
+                                      'every call raises XPST0017', None, 'a function of this name and arity exists',
+                                      what='signature-registered', site='function_signatures[' + key + ']',
+                                      tags=['F18v'] if key in PHANTOM_SIGNATURES else []))
     for v in status.values():
         st.count('signature:' + v.split(':')[0])
     st.extra['signatures'] = {'registered': total, 'inside_AST': parsed, 'called_successfully': called,
                               'result_matches_declared_type': ok, 'unmatched': unmatched[:20],
                               'unexercised': {k: v for k, v in sorted(status.items()) if v != 'called'}}
+
+
+PHANTOM_SIGNATURES = {f'fn:format-{n}#{k}' for n in ('date', 'dateTime', 'time') for k in (3, 4)}
+
+
+def impl_eval(W: World, expr: str) -> str:
+    try:
+        r = W.P.parse(expr).evaluate(W.XPathContext(W.root1))
+        return repr(r)[:60]
+    except Exception as e:
+        return err_text(e)
+
+
+def own_occurrence_cases(run: Run, W: World, G=None):
+    """a typed function test with an occurrence indicator of its own can only be written with parentheses,
+    `(function(A) as R)*`; the AST of the model has no such type, the expected answers are by the cardinality rule
+    (`occurrence_cardinality`) over items that are / are not instances of the plain function test.
+    Top level (instance of / treat as): must work on a tree with parenthesised item types.  In a declaration or nested
+    in another type the text-based code cannot hold the type: rejected with XPST0003 (finding F18w, all trees)."""
+    st = run.stats
+    g = 'let $g := function($i as xs:int) as xs:int { $i } return '
+    ft = '(function(xs:int) as xs:int)'
+    top = [(f'{g}($g, $g) instance of {ft}*', 'True'), (f'{g}($g, $g) instance of {ft}+', 'True'),
+           (f'{g}($g, $g) instance of {ft}?', 'False'), (f'{g}($g, $g) instance of {ft}', 'False'),
+           (f'{g}() instance of {ft}?', 'True'), (f'{g}() instance of {ft}*', 'True'), (f'{g}() instance of {ft}+', 'False'),
+           (f'{g}($g, 1) instance of {ft}+', 'False'), (f'{g}$g instance of {ft}?', 'True'),
+           (f'{g}(abs#1, $g) instance of {ft}*', 'False'),
+           (f'{g}count(($g, $g) treat as {ft}+)', '2'), (f'{g}count(() treat as {ft}*)', '0'),
+           (f'{g}count(($g, $g) treat as {ft}?)', 'E:XPDY0050'), (f'{g}count(() treat as {ft}+)', 'E:XPDY0050'),
+           (f'{g}$g instance of ((function((xs:int)) as (xs:int)))', 'True')]
+    decl = [(f'function($a as {ft}*) as xs:integer {{ count($a) }}(())', '0'),
+            (f'{g}function($a as {ft}+) as xs:integer {{ count($a) }}(($g, $g))', '2'),
+            (f'{g}count(function() as {ft}* {{ ($g, $g) }}())', '2'),
+            (f'{g}function($a as {ft}?) as xs:integer {{ count($a) }}(($g, $g))', 'E:XPTY0004'),
+            (f'abs#1 instance of function({ft}*) as xs:int', 'False'),
+            (f'[] instance of array({ft}*)', 'True'), (f'map{{}} instance of map(xs:string, {ft}+)', 'True'),
+            (f'{g}[($g, $g)] instance of array({ft}*)', 'True'), (f'{g}[($g, $g)] instance of array({ft}?)', 'False'),
+            (f'{g}map{{"a": ($g, $g)}} instance of map(xs:string, {ft}+)', 'True'),
+            (f'{g}map{{"a": ()}} instance of map(xs:string, {ft}+)', 'False')]
+
+    def ev(expr):
+        try:
+            r = W.P.parse(expr).evaluate(W.XPathContext(W.root1))
+            r = r[0] if isinstance(r, list) and len(r) == 1 else r
+            return repr(r)
+        except Exception as e:
+            return err_text(e)
+    # random: (typed function test, indicator, value of 0..3 items) against the model `instanceOfOwnOcc` / `treatAsOwnOcc`
+    if tree_has('paren') and G is not None:
+        rng = run.rng
+        cases = []
+        for _ in range(run.scale(300, 6000)):
+            f = rng.choice(W.funcs)
+            sig = ('F', f[2][:-1], f[2][-1])
+            ty = sig if rng.random() < 0.4 else G.variant(sig)
+            if ty[0] != 'F':
+                continue
+            n = rng.choice([0, 1, 1, 2, 2, 3])
+            items = [(f[0], f[1]) if rng.random() < 0.6 else W.gen_item(1) for _ in range(n)]
+            vt = f'{n}' + ''.join(' ' + t for _, t in items)
+            x = 1 if mentions(ty, set(live().xsd11_only)) else 0
+            cases.append((ty, rng.choice('1?*+'), [v for v, _ in items], vt, x))
+        answers = run.driver('C18', [f'O|{x}|{o}|{tok(ty)}|{vt}' for ty, o, _, vt, x in cases])
+        for (ty, o, pv, vt, x), ans in zip(cases, answers):
+            if ans.startswith('bad-'):
+                run.disagree(Disagreement(f'O|{o}|{tok(ty)}|{vt}', 'driver:' + ans, what='protocol'))
+                continue
+            a = fields(ans)
+            sp = Spacer(rng, 0.3)
+            text = f'({sp()}{render(ty, sp)}{sp()}){sp()}{"" if o == "1" else o}'
+            case = {'type': f'({render(ty)}){"" if o == "1" else o}', 'text': text, 'value': vt, 'xsd11': x}
+            st.case({'t': case['type'], 'v': vt}, nontrivial=True)
+            ii, it = impl_instance(W, pv, text, x), impl_treat(W, pv, text, x)
+            st.count('own-occurrence:random:' + ii[:7])
+            if ii != a['inst']:
+                run.disagree(Disagreement(dict(case, op='instance of'), ii, a['inst'], None, what='own-occurrence',
+                                          site='_xpath2_operators.evaluate__instance_expression'))
+            if it != a['treat']:
+                run.disagree(Disagreement(dict(case, op='treat as'), it, a['treat'], None, what='own-occurrence',
+                                          site='_xpath2_operators.evaluate__treat_expression'))
+    for expr, spec in top:
+        got = ev(expr)
+        st.case({'expr': expr}, nontrivial=True)
+        st.count('own-occurrence:top-level')
+        if got != spec:
+            run.disagree(Disagreement({'expr': expr}, got, None, spec, what='own-occurrence',
+                                      site='XPath1Parser.parse_sequence_type',
+                                      tags=[] if tree_has('paren') else ['F18w']))
+    for expr, spec in decl:
+        got = ev(expr)
+        st.case({'expr': expr}, nontrivial=True)
+        st.count('own-occurrence:declaration:' + got[:11])
+        if got != spec:
+            # the trigger: `(function(` ... `) as ` ... `)` followed by an occurrence indicator inside another type
+            run.disagree(Disagreement({'expr': expr}, got, None, spec, what='own-occurrence-nested',
+                                      site='_InlineFunction.nud append_sequence_type', tags=['F18w']))
 
 
 COLLATION_LAST = {'fn:contains#3', 'fn:contains-token#3', 'fn:distinct-values#2', 'fn:max#2', 'fn:min#2', 'fn:starts-with#3',
@@ -1829,7 +2051,8 @@ def correspond(run: Run):
     # --- judgements
     cases = []
     for _ in range(run.scale(1800, 60000)):
-        ty = G.ty(0, want_flat=True)
+        # nested function tests are judged too where the tree splits parameter lists by depth (fix-c18-6)
+        ty = G.ty(0, want_flat=not tree_has('split') or rng.random() < 0.8)
         v = W.gen_seq()
         # bias: half of the time take a type that has a chance to match the first item
         if rng.random() < 0.45 and v[0]:
@@ -1856,6 +2079,7 @@ def correspond(run: Run):
     histories(run, W, G)
     container_histories(run, W)
     error_propagation(run, W)
+    own_occurrence_cases(run, W, G)
     signatures(run, W)
     run.stats.rule = ('judgement = (sequence type AST rendered with random spacing, value of length 0..3 built from '
                       'atomic values of every value class with a sample, nodes of every kind from two documents, '
